@@ -158,3 +158,8 @@ def _(m, callee, args):
 def _(m, callee, args):
     v = deref_all(m, args[0])
     return ('fmtarg', v if isinstance(v, RStr) else RStr([ord('?')]))
+
+
+@model(r'^proc_macro2::Span::call_site$|^Span::call_site$')
+def _(m, callee, args):
+    return ('span',)
